@@ -164,7 +164,11 @@ func genWrite(t *rapid.T, base uint64, allowTrick bool) Op {
 		if rapid.IntRange(0, 3).Draw(t, "resave") == 0 {
 			kind = "resave"
 		}
-		return Op{Kind: kind, Off: uint64(rapid.IntRange(0, 3).Draw(t, "off")), Blk: genBlock(t), CrashK: -1}
+		op := Op{Kind: kind, Off: uint64(rapid.IntRange(0, 3).Draw(t, "off")), Blk: genBlock(t), CrashK: -1}
+		if base > math.MaxUint32 && rapid.IntRange(0, 3).Draw(t, "low") == 0 {
+			op.Low = true
+		}
+		return op
 	case k < 12:
 		op := Op{Kind: "setheight", CrashK: -1}
 		switch rapid.IntRange(0, 9).Draw(t, "shkind") {
@@ -198,7 +202,7 @@ func genProbes(t *rapid.T, sc *Scenario) {
 			sc.ProbeHashes = append(sc.ProbeHashes, rapid.SliceOfN(rapid.Byte(), 32, 32).Draw(t, "probehash"))
 		}
 	}
-	sc.ProbeKeys = rapid.SliceOfN(rapid.SampledFrom([]string{"unknown", "d/", "rhb", "rhb/1", "last-submitted", "L", "D"}), 0, 2).Draw(t, "probe-keys")
+	sc.ProbeKeys = rapid.SliceOfN(rapid.SampledFrom([]string{"unknown", "dd", "rhb", "rhb/1", "last-submitted", "L", "D"}), 0, 2).Draw(t, "probe-keys")
 }
 
 // genHistory draws a history with reopen steps and sampled crashes.
@@ -268,7 +272,6 @@ type stats struct {
 	overwriteSame int
 	reopens       int
 	crashesHit    int
-	crashesMissed int
 	ntEvent       bool // an overwrite, or a reopen/crash after >= 3 writes of different kinds
 	labels        map[string]bool
 	obs           []string
@@ -344,6 +347,9 @@ func runHistory(sc Scenario, be backend) (v world.Verdict) {
 		}
 		r := sc.resolve(op, m)
 		if op.Kind == "meta" && op.KeyKind == "trick" {
+			if isCrash {
+				cdb.cur.Disarm()
+			}
 			return runTrick(ctx, st, m, u, r, s)
 		}
 		before := m.clone()
@@ -352,18 +358,17 @@ func runHistory(sc Scenario, be backend) (v world.Verdict) {
 		}
 		crashed := false
 		if isCrash && op.CrashK >= 0 {
+			// stays armed over the following writes until it is reached (or the store is reopened)
 			cdb.cur.ArmCrashAfter(op.CrashK)
-			var werr error
+			s.labels["crash-armed"] = true
+		}
+		var werr error
+		if isCrash {
 			crashed = world.CatchCrash(func() { werr = exec(ctx, st, r) })
-			if !crashed {
-				cdb.cur.Disarm()
-				s.crashesMissed++
-				s.labels["crash-armed-not-reached"] = true
-				if werr != nil {
-					return world.Fail("C14/write-error", "%s: write failed on a healthy database: %v", when, werr)
-				}
-			}
-		} else if werr := exec(ctx, st, r); werr != nil {
+		} else {
+			werr = exec(ctx, st, r)
+		}
+		if !crashed && werr != nil {
 			return world.Fail("C14/write-error", "%s: write failed on a healthy database: %v", when, werr)
 		}
 		if crashed {
@@ -380,7 +385,7 @@ func runHistory(sc Scenario, be backend) (v world.Verdict) {
 			if pb != nil {
 				pa := sweep(ctx, st, m, u)
 				if pa != nil {
-					return world.Fail("C14/crash-partial-"+r.kind, "%s: process died at durable op %d of the %s; the reopened store is neither the store before the write (%s) nor after it (%s)", when, op.CrashK, r.kind, pb.msg, pa.msg)
+					return world.Fail("C14/crash-partial-"+r.kind, "%s: process died inside the %s (armed %d durable ops ahead); the reopened store is neither the store before the write (%s) nor after it (%s)", when, r.kind, op.CrashK, pb.msg, pa.msg)
 				}
 				s.labels["crash-left-write-applied"] = true
 			} else {
@@ -404,6 +409,9 @@ func runHistory(sc Scenario, be backend) (v world.Verdict) {
 		}
 		if op.Kind == "meta" {
 			s.labels["metakey:"+op.KeyKind] = true
+		}
+		if op.Low {
+			s.labels["height-truncated-alias"] = true
 		}
 		if p := sweep(ctx, st, m, u); p != nil {
 			return fail(p, when)
